@@ -119,6 +119,19 @@ func (s *Scope) Invoke(function interface{}, opts ...InvokeOption) (err error) {
 		}
 		s.isVerifiedAcyclic = true
 	}
+	// An exported constructor builds its dependencies as seen from the scope
+	// it was provided to, so with deferred verification that scope's graph
+	// must be acyclic as well before anything is called.
+	for _, gn := range s.gh.nodes {
+		cn, ok := gn.Wrapped.(*constructorNode)
+		if !ok || cn.origS == s || cn.origS.isVerifiedAcyclic {
+			continue
+		}
+		if ok, cycle := graph.IsAcyclic(cn.origS.gh); !ok {
+			return newErrInvalidInput("cycle detected in dependency graph", cn.origS.cycleDetectedError(cycle))
+		}
+		cn.origS.isVerifiedAcyclic = true
+	}
 
 	args, err := pl.BuildList(s)
 	if err != nil {
